@@ -9,7 +9,7 @@ leg description (input)   plain: npcgen leg dict {"mods","slices","charges","qco
 leg dump (output)         plain: {"mods","slices","charges","qconj","sorted","bunched"}
                           pipe : the same keys for the outgoing leg + "legs" (dumps of the incoming legs, nested),
                                  "q_map","q_map_slices","perm","strides"
-tensor description        {"legs": [...], "qtotal": [...]|None, "labels": [...]|None, "dtype": "float64"|…,
+tensor description        {"legs": [...], "qtotal": [...]|None, "labels": [...]|None, "dtype": "float64"|…, ["names": charge names,]
                            "blocks": [{"q": [qindices], "vals": [row-major scalars]}], "sorted": bool|None}
                           blocks are stored in the given order; "sorted": None = set `_qdata_sorted` truthfully,
                           False = conservative False.
@@ -69,13 +69,47 @@ def dump_dense(arr):
     return dict(shape=[int(s) for s in np.shape(arr)], vals=enc_flat(arr))
 
 
-def make_aleg(d):
-    """Real LegCharge / LegPipe from a leg description (nested)."""
+_NAMED_CHINFO = {}
+_DEFAULT_NAMES = [None]
+
+
+def set_default_names(names):
+    """Charge names used for every leg description that does not bring its own (and has as many charges): all legs
+    built while a program runs then share one ChargeInfo, as in user code. None = unnamed."""
+    _DEFAULT_NAMES[0] = list(names) if names else None
+
+
+def named_chinfo(mods, names):
+    """ChargeInfo with charge names (cached: legs of one tensor must share the instance or at least be equal)"""
+    from tenpy.linalg.charges import ChargeInfo
+    key = (tuple(mods), tuple(names))
+    if key not in _NAMED_CHINFO:
+        _NAMED_CHINFO[key] = ChargeInfo(list(mods), list(names))
+    return _NAMED_CHINFO[key]
+
+
+def make_aleg(d, names=None):
+    """Real LegCharge / LegPipe from a leg description (nested). `names` (or d['names']): charge names of the
+    ChargeInfo; without names the shared unnamed ChargeInfo of npcio is used."""
+    names = d.get('names', names)
+    if names is None and 'mods' in d and _DEFAULT_NAMES[0] is not None and len(_DEFAULT_NAMES[0]) == len(d['mods']):
+        names = _DEFAULT_NAMES[0]
     if 'pipe' in d:
         from tenpy.linalg.charges import LegPipe
         p = d['pipe']
-        return LegPipe([make_aleg(x) for x in p['legs']], qconj=p['qconj'], sort=p.get('sort', True),
+        return LegPipe([make_aleg(x, names) for x in p['legs']], qconj=p['qconj'], sort=p.get('sort', True),
                        bunch=p.get('bunch', True))
+    if names and any(names):
+        from tenpy.linalg.charges import LegCharge, QTYPE
+        ci = named_chinfo(d['mods'], names)
+        ch = np.array(d['charges'], dtype=QTYPE).reshape(len(d['charges']), len(d['mods']))
+        if d.get('ctor', 'init') == 'qind':
+            leg = LegCharge.from_qind(ci, d['slices'], ch, d['qconj'])
+        else:
+            leg = LegCharge(ci, d['slices'], ch, d['qconj'])
+        if 'sorted' in d:
+            leg.sorted, leg.bunched = bool(d['sorted']), bool(d['bunched'])
+        return leg
     return npcio.make_leg(d)
 
 
@@ -94,7 +128,7 @@ def dump_aleg(leg):
 def make_array(d, legs=None):
     """Real npc.Array from a tensor description; `legs` (real objects) may be given to share leg instances."""
     from tenpy.linalg import np_conserved as npc
-    legs = legs if legs is not None else [make_aleg(l) for l in d['legs']]
+    legs = legs if legs is not None else [make_aleg(l, d.get('names')) for l in d['legs']]
     dt = np.dtype(d.get('dtype', 'float64'))
     a = npc.Array(legs, dt, d.get('qtotal'), d.get('labels'))
     blocks = d.get('blocks', [])
@@ -110,7 +144,7 @@ def make_array(d, legs=None):
 
 def dump_array(a, with_dense=True):
     d = dict(mods=[int(m) for m in a.chinfo.mod], legs=[dump_aleg(l) for l in a.legs],
-             qtotal=[int(x) for x in a.qtotal], labels=list(a._labels),
+             qtotal=[int(x) for x in a.qtotal], labels=list(a._labels), names=[str(n) for n in a.chinfo.names],
              qdata=[[int(x) for x in row] for row in a._qdata],
              blocks=[dump_dense(t) for t in a._data], sorted=bool(a._qdata_sorted), dtype=str(a.dtype))
     if with_dense:
